@@ -443,9 +443,9 @@ def accumulating_flags(f):
     or a compound assignment, or a value that depends on the flag itself."""
     from faillog import _can_reach
     for v in f.walk():
-        if v.get('k') != 'Var' or v.get('t') != 'bool' or not v.get('c') or v['c'][0].get('k') != 'Bool':
+        if v.get('k') != 'Var' or v.get('t') != 'bool' or not v.get('c'):
             continue
-        init = v['c'][0].get('v')
+        init = v['c'][0].get('v') if v['c'][0].get('k') == 'Bool' else None
         d = v['d']
         for loop in f.walk():
             if loop.get('k') not in ('For', 'While', 'RangeFor', 'Do'):
@@ -465,6 +465,14 @@ def accumulating_flags(f):
                 continue
             for x in asg:
                 rhs = x['c'][1]
-                mono = (rhs.get('k') == 'Bool' and rhs.get('v') != init) or x.get('k') == 'CAssign' or any(r.get('k') == 'Ref' and r.get('d') == d for r in walk(rhs))
+                mono = (rhs.get('k') == 'Bool' and (init is None or rhs.get('v') != init)) or x.get('k') == 'CAssign' or any(r.get('k') == 'Ref' and r.get('d') == d for r in walk(rhs))
+                if not mono:
+                    # `found = test(); if (found) break;` / assignment directly followed by break or return: a search result, the first hit wins
+                    p_ = f.parent(x)
+                    sibs = p_.get('c', []) if p_ is not None else []
+                    if x in sibs:
+                        after = sibs[sibs.index(x) + 1:]
+                        if after and (after[0].get('k') in ('Break', 'Return') or (after[0].get('k') == 'If' and any(r.get('k') == 'Ref' and r.get('d') == d for r in walk(role(after[0], 'cond') or {})) and any(y.get('k') in ('Break', 'Return') for y in walk(after[0])))):
+                            mono = True
                 # an assignment that is immediately followed by leaving the loop records a search result, not an accumulation
                 yield v, loop, x, mono
